@@ -85,6 +85,8 @@ From CSS Require Import Lib.Base Model.TPM Proofs.TPM Model.BootSim Proofs.BootS
 From CSS Require Import Model.TPMSlices Proofs.TPMSlices Model.BootSimGen Proofs.BootSimSlices.
 From CSS Require Import Model.BootSimObjs Proofs.BootSimObjs.
 From CSS Require Import Model.BootSimLedger Proofs.BootSimLedger Model.BootSimSrc Proofs.BootSimSrc.
+From CSS Require Model.Ranges.
+Module RG := CSS.Model.Ranges.
 
 (** * 1. Command log *)
 
@@ -640,6 +642,19 @@ Example C01_ledger_example :
   nth 7 (led_cmds L) Reset = Extend 7 ALG_SHA1 (toy_hash ALG_SHA1 [1; 2; 3; 4]).
 Proof. vm_compute. repeat split. Qed.
 
+(** a concrete run with causes: InitTPM(3, true) and a measurement in ONE step (four
+    actions: TPMInit, two startup entries, TPMEvent), then a measurement into PCR 7 and a
+    refused TPMInit in the next: the coordinates beside the nine commands *)
+Example C01_causes_example :
+  let fl := [ [IInitTPM 3 true; IEvent 0 toy_data 1 (Some [9])]; [IEvent 7 toy_data 1 None; IInit 0] ] in
+  let res := run_flow_tagged (list Z) lit_bytes toy_hash (boot_start RNew) 0 fl in
+  map fst (snd res) = [(0, 0); (0, 1); (0, 2); (0, 3); (0, 3); (0, 3); (0, 3); (1, 0); (1, 1)]%nat /\
+  In (1%nat, 0%nat, Extend 7 ALG_SHA1 (toy_hash ALG_SHA1 [1; 2; 3; 4])) (snd res) /\
+  map snd (snd res) = cmdlog (toy_run fl).
+Proof.
+  cbv zeta. split; [vm_compute; reflexivity|]. split; [vm_compute; tauto|vm_compute; reflexivity].
+Qed.
+
 (** * 8. Data sources
 
     The measurements of sections 1-7 carry what DataSource.Data returned.  Here the
@@ -736,6 +751,24 @@ Proof.
   - exists [[7; 8]; []; [5]; [6]]. split; [repeat constructor|reflexivity].
   - repeat split; reflexivity.
 Qed.
+
+(** a flow whose measurement names a Concat source: the extended digest is the hash of
+    the sub-sources' bytes in order (the premise of C01_digest_is_hash_of_source_bytes) *)
+Example C01_source_flow_example :
+  let fl := [ [SI (IInitTPM 0 false)];
+              [SEv 0 (SConcat [SMemRanges [(7, 1); (8, 1)]; SBytes (Some []);
+                               SStatic (mkData [(false, [5]); (false, [6])] None)]) 1 None;
+               SEv 1 (SConcat [SBytes (Some [1])]) 1 None] ] in
+  let t := s_tpm (fst (run_flow _ (fun r => Ok (snd r)) toy_hash (boot_start RNew) (resolve_flow _ toy_plat fl))) in
+  In (Extend 0 ALG_SHA1 (toy_hash ALG_SHA1 [7; 8; 5; 6])) (cmdlog t) /\ length (cmdlog t) = 5%nat.
+Proof. cbv zeta. split; [vm_compute; tauto|vm_compute; reflexivity]. Qed.
+
+(** reading the reference Bytes(b) makes gives [b] in C11's model of Reference.RawBytes
+    (the premise of the last clause of C01_bytes_source) *)
+Example C01_bytes_reference_reads_back :
+  RF.ref_rawbytes (RF.mkRef (RF.mkArt 0 0 true [1; 2; 3]) RF.MNil [RG.mkR 0 3]) = Ok [1; 2; 3].
+Proof. vm_compute. reflexivity. Qed.
+
 
 (** * Examples: the hypotheses are satisfiable by non-trivial values *)
 
